@@ -47,6 +47,7 @@ def Cell.kind : Cell → CellKind
   | .miu _ => .rw 0xFFFF
   | .dma .seox => .const 0xFFFF            -- the write goes to a storage word nothing reads
   | .dma .z => .rwTrigger 0xFFFF
+  | .dma .active => .rw 7                  -- CHANNEL: 3 bits
   | .dma _ => .rw 0xFFFF
   | .icu .request => .ro
   | .icu .ack => .wo
